@@ -63,6 +63,10 @@ POOL = [
     ("stresc", "k = [\"x\\\\\", 1]"), ("stresc", "k = {'q\"': 1}"), ("stresc", 'k = {"a\\b": 2}'),
     ("list", "k = [1, 2, 3]"), ("list", "k = []"), ("list", 'k = [1, -2, [3, "x"], {a: null}]'),
     ("list", "k = [-1, -0, 1e300 * 1e10]"),
+    # all-finite numeric containers holding the values a number printer is most likely to get wrong: -0, whole
+    # values at and beyond the i64 / u64 range, both sides of the 1e15 notation split (cf. C16 CAPTURED)
+    ("list", "k = [1, -0, 2.5]"), ("big", "k = [10000000000000000000, 18446744073709551616, -1e300, 6.02214076e23]"),
+    ("big", "k = {a: [9223372036854775808, -0, 999999999999999, 1e15], b: -1e21}"), ("big", "k = [[-0], [1e19, -9223372036854775808]]"),
     ("rec", "k = {a: 1, b: 2}"), ("rec", "k = {}"), ("rec", 'k = {a: {a: [1, {a: -1}]}, "b c": [2], via: -3, "if": 4, "9x": 5, "": 6}'),
     ("rec", "k = {a: -1}"),
     ("builtin", "k = sin"), ("builtin", "k = map"), ("builtin", "k = len"), ("builtin", "k = [abs, floor]"),
